@@ -33,6 +33,7 @@ REQUIRED_CLASSES = {
     "large": ["entangling", "measuring", "random_outcome", "register_index>=10", "emitter+photon"],
     "incremental": ["recompiled_after_growth", "entangling", "measuring"],
     "shared_compiler": ["same_size_other_split", "entangling", "measuring"],
+    "parity": ["det_outcome_1", "entangling", "measuring"],
 }
 
 SETTINGS = [0, 1, "probabilistic"]
@@ -264,6 +265,37 @@ def st_shared(draw):
     return {"circs": circs, "seed": draw(st.integers(0, 2**31 - 1))}
 
 
+@st.composite
+def st_parity(draw):
+    """basis states pushed through a CNOT network (the tableau's generators become products of many Z's), then measured:
+    every outcome is fixed by the state and is the product of several generators; classically controlled gates follow"""
+    ne = draw(st.integers(1, 3))
+    np_ = draw(st.integers(1, 4))
+    regs = [("e", i) for i in range(ne)] + [("p", i) for i in range(np_)]
+    nc = draw(st.integers(1, 3))
+    ops_ = [["X", t, r] for t, r in regs if draw(st.booleans())]
+    for _ in range(draw(st.integers(4, 16))):
+        a = draw(st.sampled_from(regs))
+        b = draw(st.sampled_from([q for q in regs if q != a]))
+        ops_.append(["CNOT", a[0], a[1], b[0], b[1]])
+        if draw(st.integers(0, 3)) == 0:
+            q = draw(st.sampled_from(regs))
+            # a few Hadamards / phase gates: the generators then carry X and Y, and a qubit that was entangled and is
+            # disentangled again by later CNOTs has a fixed outcome that is a product of three or more of them
+            ops_.append([draw(st.sampled_from(["Z", "X", "I", "H", "H", "H", "P", "Pdag"])), q[0], q[1]])
+    for _ in range(draw(st.integers(1, 4))):
+        a = draw(st.sampled_from(regs))
+        b = draw(st.sampled_from([q for q in regs if q != a]))
+        kind = draw(st.sampled_from(["MZ", "CCNOT", "CCZ", "MCR"]))
+        c = draw(st.integers(0, nc - 1))
+        ops_.append(["MZ", a[0], a[1], c] if kind == "MZ" else [kind, a[0], a[1], b[0], b[1], c])
+        if draw(st.booleans()):
+            x = draw(st.sampled_from(regs))
+            y = draw(st.sampled_from([q for q in regs if q != x]))
+            ops_.append(["CNOT", x[0], x[1], y[0], y[1]])
+    return {"circ": {"ne": ne, "np": np_, "nc": nc, "ops": ops_}, "seed": draw(st.integers(0, 2**31 - 1)), "init": None}
+
+
 class PauliRun:
     """the same textbook execution on the Pauli-algebra simulator (any number of qubits)"""
 
@@ -440,6 +472,8 @@ SUBS = [
     Sub("incremental", check_incremental, strategy=lambda tier: st.fixed_dictionaries({
         "circ": gc.st_circuit(max_q=4, max_len=18, max_c=2), "seed": st.integers(0, 2**31 - 1)}), n={"quick": 40, "thorough": 800},
         doc="one circuit object grown in three stages, compiled after each stage by the same two compiler objects"),
+    Sub("parity", check_random, strategy=lambda tier: st_parity(), n={"quick": 40, "thorough": 1000},
+        doc="basis states through CNOT networks, then measurements whose fixed outcome is a product of several generators"),
     Sub("shared_compiler", check_shared, strategy=lambda tier: st_shared(), n={"quick": 40, "thorough": 800},
         doc="two or three different circuits with the same number of qubits compiled in a row by the same compiler objects"),
     Sub("large", check_large, strategy=strat_large, n={"quick": 40, "thorough": 1500},
